@@ -846,14 +846,15 @@ func (vfs *MemFS) RemoveAll(path string) error {
 
 	if child == node(parent) {
 		// the root directory has no parent and stays: only its content is removed.
+		parent.mu.Lock()
+		defer parent.mu.Unlock()
+
 		err = vfs.removeAll(parent)
 		if err != nil {
 			return &fs.PathError{Op: op, Path: path, Err: err}
 		}
 
-		parent.mu.Lock()
 		parent.children = nil
-		parent.mu.Unlock()
 
 		return nil
 	}
@@ -869,7 +870,12 @@ func (vfs *MemFS) RemoveAll(path string) error {
 
 	defer parent.mu.Unlock()
 
-	if c, ok := child.(*dirNode); ok && c.hasChildren() {
+	// the directory stays locked from the removal of its content to its own removal :
+	// nothing can be added to it in between.
+	child.Lock()
+	defer child.Unlock()
+
+	if c, ok := child.(*dirNode); ok {
 		err = vfs.removeAll(c)
 		if err != nil {
 			return &fs.PathError{Op: op, Path: path, Err: err}
@@ -879,9 +885,6 @@ func (vfs *MemFS) RemoveAll(path string) error {
 	if ok := parent.checkPermission(avfs.OpenWrite, vfs.User()); !ok {
 		return &fs.PathError{Op: op, Path: path, Err: vfs.err.PermDenied}
 	}
-
-	child.Lock()
-	defer child.Unlock()
 
 	if !parent.mayUnlink(child.ownedBy(vfs.User()), vfs.User()) {
 		return &fs.PathError{Op: op, Path: path, Err: vfs.err.OpNotPermitted}
@@ -893,10 +896,8 @@ func (vfs *MemFS) RemoveAll(path string) error {
 	return nil
 }
 
+// removeAll removes the content of the directory parent, whose lock is held by the caller.
 func (vfs *MemFS) removeAll(parent *dirNode) error {
-	parent.mu.Lock()
-	defer parent.mu.Unlock()
-
 	if len(parent.children) == 0 {
 		// nothing to remove : no permission is needed on an empty directory.
 		return nil
@@ -908,14 +909,17 @@ func (vfs *MemFS) removeAll(parent *dirNode) error {
 	}
 
 	for name, child := range parent.children {
+		// a directory stays locked from the removal of its content to its own removal.
+		child.Lock()
+
 		if c, ok := child.(*dirNode); ok {
 			err := vfs.removeAll(c)
 			if err != nil {
+				child.Unlock()
+
 				return err
 			}
 		}
-
-		child.Lock()
 
 		if !parent.mayUnlink(child.ownedBy(vfs.User()), vfs.User()) {
 			child.Unlock()
